@@ -120,7 +120,7 @@ type sivCase struct {
 	route string
 	ks    []entry
 	d     tink.DeterministicAEAD
-	w     *vt.Writer
+	w     *dpk.Writer
 }
 
 func (c *sivCase) ev(name string) vt.Ev { return vt.Ev{"ev": name, "route": c.route, "ks": c.ks} }
@@ -128,7 +128,7 @@ func (c *sivCase) ev(name string) vt.Ev { return vt.Ev{"ev": name, "route": c.ro
 // bufs holds the driver-owned REUSED input buffers (one backing array per argument role): every call overwrites
 // them with its inputs and scribbles over them afterwards; logged inputs come from the pristine arguments, outputs
 // are rendered after the scribble.
-var bufs = dpk.Arenas{}
+var bufs = dpk.NewArenas()
 
 func (c *sivCase) enc(pt, ad []byte, adNil bool) []byte {
 	return c.encKind("", pt, ad, adNil)
@@ -160,6 +160,43 @@ func (c *sivCase) encKind(kind string, pt, ad []byte, adNil bool) []byte {
 		return nil
 	}
 	return o1
+}
+
+// enclosed is the enclosing-buffer sequence: encrypt with the plaintext (which == 0) or the associated data
+// (which == 1) being rec[:n], a prefix of a larger caller record whose rest is the slice's spare capacity, and then
+// with the whole record WITHOUT rewriting the buffer in between. Each call is its own event on the pristine content.
+func (c *sivCase) enclosed(which int, rec []byte, n int, other []byte) {
+	role, orole := "pt", "ad"
+	if which == 1 {
+		role, orole = "ad", "pt"
+	}
+	one := func(kind string, in []byte, get func() []byte, after func()) {
+		var o []byte
+		var err error
+		p, pv := vt.Try(func() {
+			a, b := get(), bufs.In(orole, other)
+			if which == 0 {
+				o, err = c.d.EncryptDeterministically(a, b)
+			} else {
+				o, err = c.d.EncryptDeterministically(b, a)
+			}
+			after()
+			o = clone(o)
+		})
+		pt, ad := in, other
+		if which == 1 {
+			pt, ad = other, in
+		}
+		e := c.ev("enc")
+		e["kind"], e["pt"], e["ad"], e["adnil"] = kind, vt.Hex(pt), vt.Hex(ad), false
+		e["out"], e["out2"], e["err"], e["panic"] = vt.Hex(o), vt.Hex(o), err != nil, p
+		if p {
+			e["panicVal"] = fmt.Sprint(pv)
+		}
+		c.w.Emit(e)
+	}
+	one("enclosed-prefix", rec[:n], func() []byte { return bufs.InPrefix(role, rec, n) }, bufs.Check)
+	one("enclosed-whole", rec, func() []byte { return bufs.Again(role, len(rec)) }, bufs.ScribbleAll)
 }
 
 func (c *sivCase) dec(kind string, ct, ad []byte) {
@@ -331,7 +368,7 @@ func ptLens(full bool, ci int, r *rand.Rand) []int {
 
 var adLens = []int{0, 1, 2, 7, 8, 15, 16, 17, 24, 31, 32, 33, 40, 47, 48, 49, 64, 100, 255, 256, 1000}
 
-func runSIV(w *vt.Writer, full bool) {
+func runSIV(w *dpk.Writer, full bool) {
 	r := vt.Rng(8)
 	seed := int(vt.Seed())
 	type plan struct {
@@ -463,6 +500,10 @@ func runSIV(w *vt.Writer, full bool) {
 				c.dec("walk", ct, ad)
 			}
 		}
+		for wi, nk := range [][2]int{{0, 1}, {5, 11}, {15, 1}, {16, 17}, {33, 31}} {
+			c.enclosed(0, content(r, nk[0]+nk[1], wi), nk[0], content(r, 9, wi+1))
+			c.enclosed(1, content(r, nk[0]+nk[1], wi+3), nk[0], content(r, 21, wi))
+		}
 		for wi, n := range dpk.Walk(0) {
 			pt, ad := content(r, 20, wi), content(r, n, wi+2)
 			if ct := c.encKind("walk", pt, ad, n == 0 && wi%2 == 0); ct != nil {
@@ -495,7 +536,7 @@ func runSIV(w *vt.Writer, full bool) {
 	wycheproofSIV(w)
 }
 
-func xorend(w *vt.Writer, key, data, last []byte) {
+func xorend(w *dpk.Writer, key, data, last []byte) {
 	var o []byte
 	var err error
 	p, pv := vt.Try(func() {
@@ -523,7 +564,7 @@ func wycheproofDir() string {
 
 // wycheproofSIV feeds the ciphertexts of independent origin (valid and invalid) to Tink: direction
 // "ciphertext not made by Tink -> Tink decrypts". The file's verdicts are not used.
-func wycheproofSIV(w *vt.Writer) {
+func wycheproofSIV(w *dpk.Writer) {
 	dir := wycheproofDir()
 	if dir == "" {
 		return
@@ -571,7 +612,7 @@ func wycheproofSIV(w *vt.Writer) {
 type kwpCase struct {
 	key []byte
 	k   *ksubtle.KWP
-	w   *vt.Writer
+	w   *dpk.Writer
 }
 
 // second renders the output of the repeated call: "=" when byte-identical to a long first output.
@@ -610,6 +651,27 @@ func (c *kwpCase) wrap(kind string, pt []byte, deep bool) []byte {
 		return nil
 	}
 	return o1
+}
+
+// enclosed wraps rec[:n] (a prefix of a larger caller record) and then the whole record without rewriting the buffer.
+func (c *kwpCase) enclosed(rec []byte, n int) {
+	one := func(kind string, in []byte, get func() []byte, after func()) {
+		var o []byte
+		var err error
+		p, pv := vt.Try(func() {
+			o, err = c.k.Wrap(get())
+			after()
+			o = clone(o)
+		})
+		e := vt.Ev{"ev": "wrap", "route": "subtle", "kind": kind, "key": vt.Hex(c.key), "pt": vt.Hex(in), "deep": true,
+			"ok": err == nil && !p, "out": vt.Hex(o), "out2": "=", "panic": p}
+		if p {
+			e["panicVal"] = fmt.Sprint(pv)
+		}
+		c.w.Emit(e)
+	}
+	one("enclosed-prefix", rec[:n], func() []byte { return bufs.InPrefix("wpt", rec, n) }, bufs.Check)
+	one("enclosed-whole", rec, func() []byte { return bufs.Again("wpt", len(rec)) }, bufs.ScribbleAll)
 }
 
 func (c *kwpCase) unwrap(kind string, ct []byte, deep bool) {
@@ -712,7 +774,7 @@ func (c *kwpCase) forgeries(r *rand.Rand, n int, full bool) {
 // everything that does not range over all lengths is in chunk 0).
 var chunkI, chunkN = 0, 1
 
-func runKWP(w *vt.Writer, full bool) {
+func runKWP(w *dpk.Writer, full bool) {
 	r := vt.Rng(81 + int64(chunkI)*1000)
 	seed := int(vt.Seed())
 	if chunkI != 0 {
@@ -752,7 +814,7 @@ func runKWP(w *vt.Writer, full bool) {
 }
 
 // kwpLengths wraps payloads of the length plan of this chunk and unwraps exact, corrupted and mis-sized forms.
-func kwpLengths(w *vt.Writer, r *rand.Rand, seed int, full bool) {
+func kwpLengths(w *dpk.Writer, r *rand.Rand, seed int, full bool) {
 	for ki, kl := range []int{16, 32} {
 		reps := 1
 		if full {
@@ -841,6 +903,9 @@ func kwpLengths(w *vt.Writer, r *rand.Rand, seed int, full bool) {
 						c.unwrap("walk", ct, true)
 					}
 				}
+				for wi, nk := range [][2]int{{16, 1}, {17, 7}, {24, 16}, {33, 31}} {
+					c.enclosed(content(r, nk[0]+nk[1], wi), nk[0])
+				}
 				for wi, n := range []int{8192, 16, 4097, 17, 8191, 24} {
 					if ct := c.wrap("walk", content(r, n, wi), false); ct != nil {
 						c.unwrap("walk", ct, false)
@@ -851,7 +916,7 @@ func kwpLengths(w *vt.Writer, r *rand.Rand, seed int, full bool) {
 	}
 }
 
-func wycheproofKWP(w *vt.Writer) {
+func wycheproofKWP(w *dpk.Writer) {
 	dir := wycheproofDir()
 	if dir == "" {
 		return
@@ -892,7 +957,7 @@ func wycheproofKWP(w *vt.Writer) {
 // ---------------------------------------------------------------------------------------------
 
 // replay re-executes the single call described by a replay file against the current tree.
-func replay(path string, w *vt.Writer) {
+func replay(path string, w *dpk.Writer) {
 	raw, err := os.ReadFile(path)
 	if err != nil {
 		vt.Fatal("read replay: %v", err)
@@ -954,7 +1019,7 @@ func main() {
 	if *out == "" {
 		vt.Fatal("usage: c08 -part siv|kwp -out trace.ndjson [-replay file]")
 	}
-	w := vt.NewWriter(*out)
+	w := dpk.NewWriter(*out, bufs)
 	defer w.Close()
 	if *rp != "" {
 		replay(*rp, w)
